@@ -80,6 +80,10 @@ type world struct {
 	// functions (MatchSnapshot(t, …) etc.), with defaultConfig.snapsDir pointed at the world's
 	// directory for the duration of the call, so that the exported wrappers are exercised too
 	cfgPlain map[int]bool
+	optCache map[string]func(*Config)
+	// matcher VALUES are reused too: the same spec gives the same match.Any/Type/Custom value for the
+	// whole world (a package-level `var idMatcher = match.Type[string]("id")` used by many tests)
+	matcherCache map[string]bothMatcher
 	pkgTurn  bool
 	ts      map[int]*mockT
 	realEnv bool
@@ -201,6 +205,11 @@ func (m matcherSpec) build() bothMatcher {
 			return match.Type[map[string]any](m.paths...).ErrOnMissingPath(m.eom)
 		case "slice":
 			return match.Type[[]any](m.paths...).ErrOnMissingPath(m.eom)
+		case "intslice":
+			// a concrete element type never matches a decoded document ([]interface {})
+			return match.Type[[]int](m.paths...).ErrOnMissingPath(m.eom)
+		case "strintmap":
+			return match.Type[map[string]int](m.paths...).ErrOnMissingPath(m.eom)
 		}
 	case "C":
 		okErr, payload := m.okErr, m.ph
@@ -481,6 +490,15 @@ func (w *world) result(op string, t *mockT, before map[string]bool, stdout strin
 	fmt.Fprintf(w.out, "%s ev=%s w=%s d=%s out=%s\n", op, ev, hexList(wr), hexList(rm), hx(stdout))
 }
 
+func (w *world) matcher(spec string) bothMatcher {
+	if m, ok := w.matcherCache[spec]; ok {
+		return m
+	}
+	m := parseMatcher(spec).build()
+	w.matcherCache[spec] = m
+	return m
+}
+
 // viaPackage: should this call go through the package-level function?
 func (w *world) viaPackage(n int) bool {
 	if !w.cfgPlain[n] {
@@ -540,26 +558,40 @@ func (w *world) exec(line string) {
 		// the Dir option is passed as written (root + "/" + relative part), NOT cleaned, so that
 		// trailing separators, "." and ".." segments reach the library
 		dir := w.root + "/" + unhx(tok[2])
+		// option VALUES are reused: the same Filename/Ext/Update/JSON option (one closure) is applied
+		// to every Config of the world that asks for it, as a user sharing `opts := snaps.JSON(…)`
+		// between several WithConfig calls would do
+		opt := func(key string, mk func() func(*Config)) func(*Config) {
+			if o, ok := w.optCache[key]; ok {
+				return o
+			}
+			o := mk()
+			w.optCache[key] = o
+			return o
+		}
 		var opts []func(*Config)
 		opts = append(opts, Dir(dir))
 		if tok[3] != "-" {
-			opts = append(opts, Filename(unhx(tok[3])))
+			opts = append(opts, opt("fn:"+tok[3], func() func(*Config) { return Filename(unhx(tok[3])) }))
 		}
 		if tok[4] != "-" {
-			opts = append(opts, Ext(unhx(tok[4])))
+			opts = append(opts, opt("ext:"+tok[4], func() func(*Config) { return Ext(unhx(tok[4])) }))
 		}
 		switch tok[5] {
 		case "true":
-			opts = append(opts, Update(true))
+			opts = append(opts, opt("upd:true", func() func(*Config) { return Update(true) }))
 		case "false":
-			opts = append(opts, Update(false))
+			opts = append(opts, opt("upd:false", func() func(*Config) { return Update(false) }))
 		}
 		w.cfgJSON[n] = nil
 		if len(tok) > 6 && tok[6] != "none" {
-			f := strings.Split(tok[6], ":")
-			jc := JSONConfig{Width: atoi(f[0]), Indent: unhx(f[1]), SortKeys: f[2] == "1"}
-			opts = append(opts, JSON(jc))
-			w.cfgJSON[n] = &jc
+			// several JSON options separated by '+': applied in order, the last one wins
+			for _, spec := range strings.Split(tok[6], "+") {
+				f := strings.Split(spec, ":")
+				jc := JSONConfig{Width: atoi(f[0]), Indent: unhx(f[1]), SortKeys: f[2] == "1"}
+				opts = append(opts, opt("json:"+spec, func() func(*Config) { return JSON(jc) }))
+				w.cfgJSON[n] = &jc
+			}
 		}
 		w.cfgs[n] = WithConfig(opts...)
 		w.cfgPlain[n] = len(opts) == 1
@@ -596,7 +628,7 @@ func (w *world) exec(line string) {
 		for _, m := range tok[5:] {
 			sp := parseMatcher(m)
 			ms = append(ms, sp)
-			jm = append(jm, sp.build())
+			jm = append(jm, w.matcher(m))
 		}
 		jc := w.cfgJSON[atoi(tok[1])]
 		fmt.Fprintln(w.ann, expectJSON(jc, form, doc, ms))
@@ -634,7 +666,7 @@ func (w *world) exec(line string) {
 		for _, m := range tok[5:] {
 			sp := parseMatcher(m)
 			ms = append(ms, sp)
-			ym = append(ym, sp.build())
+			ym = append(ym, w.matcher(m))
 		}
 		fmt.Fprintln(w.ann, expectYAML(form, doc, ms))
 		var input any
@@ -718,7 +750,7 @@ func (w *world) exec(line string) {
 		cur := append([]byte(nil), doc...)
 		var parts []string
 		for _, mt := range tok[3:] {
-			m := parseMatcher(mt).build()
+			m := w.matcher(mt)
 			callers := append([]byte(nil), cur...)
 			keep := append([]byte(nil), callers...)
 			var o []byte
@@ -744,6 +776,10 @@ func (w *world) exec(line string) {
 		}
 		fmt.Fprintln(w.ann, "skipline")
 		fmt.Fprintf(w.out, "mdoc %s\n", strings.Join(parts, " "))
+	case "fmtval":
+		// fmtval <hex>: how kr/pretty formats this string (the "formatted value" of the properties)
+		fmt.Fprintln(w.ann, "skipline")
+		fmt.Fprintf(w.out, "fmtval %s\n", hx(krpretty.Sprint(unhx(tok[1]))))
 	case "path":
 		// path <cfg> <standalone> <tname>: white-box snapshotPath (no file system access)
 		c := w.cfgs[atoi(tok[1])]
@@ -850,7 +886,7 @@ func TestVerifHarness(t *testing.T) {
 			t.Fatal(err)
 		}
 		root, _ = filepath.EvalSymlinks(root)
-		w = &world{root: root, cfgs: map[int]*Config{}, cfgJSON: map[int]*JSONConfig{}, cfgPlain: map[int]bool{}, ts: map[int]*mockT{},
+		w = &world{root: root, cfgs: map[int]*Config{}, cfgJSON: map[int]*JSONConfig{}, cfgPlain: map[int]bool{}, optCache: map[string]func(*Config){}, matcherCache: map[string]bothMatcher{}, ts: map[int]*mockT{},
 			realEnv: os.Getenv("VERIF_REALENV") == "1", out: bufio.NewWriter(outF), ann: bufio.NewWriter(annF)}
 		testsRegistry = newRegistry()
 		standaloneTestsRegistry = newStandaloneRegistry()
